@@ -2,13 +2,17 @@
 """merge_branch.py <branch> [Fold=Fnew ...] — merge a builder branch; known_findings.json is merged by renumbering ids"""
 import sys, json, subprocess
 br = sys.argv[1]
-ren = dict(a.split("=") for a in sys.argv[2:])
+props = [a[6:].split(",") for a in sys.argv[2:] if a.startswith("props=")]
+props = props[0] if props else None
+ren = dict(a.split("=") for a in sys.argv[2:] if not a.startswith("props="))
 ours = json.load(open("/verif/known_findings.json"))
 r = subprocess.run(["git", "show", br + ":known_findings.json"], capture_output=True, text=True, cwd="/verif")
 theirs = json.loads(r.stdout) if r.returncode == 0 else {"findings": [], "fixed": []}
 m = subprocess.run(["git", "merge", "--no-commit", br], capture_output=True, text=True, cwd="/verif")
 print(m.stdout[-1500:], m.stderr[-500:])
 for f in theirs.get("findings", []):
+    if props and f["property"] not in props:
+        continue
     f["id"] = ren.get(f["id"], f["id"])
     if not any(g["property"] == f["property"] and g["id"] == f["id"] and g.get("signature") == f.get("signature") for g in ours["findings"]):
         ours["findings"].append(f)
